@@ -1,6 +1,7 @@
 """C09 Adaptive time stepping hits every scheduled time (TimeManager + the time loop that drives it)."""
 import json
 import math
+import sys
 import types
 import warnings
 from fractions import Fraction as F
@@ -28,7 +29,7 @@ THEOREMS = [
 LEAN_MODULES = ["PorepyVerif.C09.Props"]
 AUDIT = "PorepyVerif/C09/Audit.lean"
 DRIVER = "PorepyVerif/C09/Driver.lean"
-N = {"quick": 800, "thorough": 25000}
+N = {"quick": 600, "thorough": 25000}
 RULE = ("streams: A (55%) time loop on dyadic parameters (schedule of 2-6 points with arbitrary dyadic start, gaps 1/16..4, dt bounds/"
         "factors with small power-of-two denominators, tolerances default/zero/dyadic/large/negative/rtol>1, outcome tapes of 5-40 entries with failure "
         "rates 0-0.8 and iteration counts around the optimal-range end points; dt_init fits the first interval in 90%, divides the gaps "
@@ -168,12 +169,18 @@ def _real_loop(tm, outcomes):
         def set_variable_values(self, *a, **k):
             return None
 
-    class _Model:
-        def __init__(self):
+    class _Model(SolutionStrategy):
+        """Real SolutionStrategy (so that every helper the real hooks call exists) without its constructor:
+        an empty mixed-dimensional grid (no subdomains, no boundary grids), a no-op equation system, and
+        the storage / export steps switched off. Only the time manager is of interest here."""
+
+        def __init__(self):  # deliberately not calling SolutionStrategy.__init__ (needs a full model)
             self.time_manager = tm
+            self.mdg = pp.MixedDimensionalGrid()
             self.equation_system = _ES()
             self.nonlinear_solver_statistics = types.SimpleNamespace(num_iteration=0)
             self.convergence_status = False
+            self.params = {}
 
         def update_solution(self, solution):
             pass
@@ -221,10 +228,32 @@ def _real_loop(tm, outcomes):
         except _TapeEnd:
             status = "running"
         except Exception as e:
+            _stub_guard(e)
             status = ("raised:" if where["hook"] == "fail" else "crashed:") + type(e).__name__
             if steps:
                 steps[-1]["exc"] = type(e).__name__
     return status, accepted, steps
+
+
+def _stub_guard(e):
+    """An exception that escapes the real loop counts against the code under test only if the time manager
+    is involved (a frame of time_step_control.py in the traceback) or it is one of the ValueErrors the
+    hooks raise themselves. Anything else that comes from the stand-in model (missing attribute of
+    `_Model` / `_ES`, frame of this file innermost) means the harness stub no longer fits the real hooks:
+    that is a harness problem (exit 2, no verdict), never a violation."""
+    import traceback
+
+    frames = traceback.extract_tb(e.__traceback__)
+    files = [f.filename for f in frames]
+    if any(f.endswith("time_step_control.py") for f in files):
+        return
+    msg = str(e)
+    from_stub = ("_Model" in msg or "_ES" in msg or "SimpleNamespace" in msg or (files and files[-1].endswith("props/c09.py")))
+    if isinstance(e, (AttributeError, TypeError, NotImplementedError, KeyError)) and from_stub:
+        print("harness error in C09: the stand-in model no longer fits the real SolutionStrategy hooks:\n"
+              + "".join(traceback.format_exception(type(e), e, e.__traceback__))[-1500:], file=sys.stderr)
+        print("harness error in C09 (exit 2, no verdict)")
+        raise SystemExit(2)
 
 
 def _construct(p):
